@@ -217,6 +217,13 @@ namespace
         }
       else path = write_doc(s["wb"], owner);
       if (!path.empty() && path[0] != '/') path = std::string(VERIF_REPO) + "/" + path;
+      if (s.HasMember("blank_name") && s["blank_name"].GetBool())
+        {
+          // the file name ends with a blank (valid on POSIX); no file of the same name without the blank exists
+          const std::string blank = tmpdir + "/b" + std::to_string(getpid()) + "_" + std::to_string(stats.worlds) + ".wb ";
+          std::ifstream src(path, std::ios::binary); std::ofstream dst(blank, std::ios::binary); dst << src.rdbuf();
+          path = blank;
+        }
       const bool has_outdir = s.HasMember("outdir");
       const std::string outdir = has_outdir ? s["outdir"].GetString() : "";
 #ifdef GWB_VERIF
